@@ -1,8 +1,17 @@
 /* C05 harness: element life cycle in typed buffers.
  *
- * Case line:  <id> A<szA> B<szB> s<script|-> <op> <args> ...
+ * Case line:  <id> <A|F|I><szA> B<szB> s<script|-> <op> <args> ...
  * Two harness-defined traits A and B (element sizes from the case) whose init/fini
- * callbacks append to an event log.  Every element stores a magic word and its
+ * callbacks append to an event log.  The first letter is the SHAPE of both traits:
+ *   A  init and fini
+ *   F  fini only (mpt::reference_array<T>): the library cannot construct; elements are made by the
+ *      caller writing their bytes.  Slots the library adds to the content by itself are zero-filled
+ *      (the all-zero pattern is the empty element, fini on it is silent); the harness takes note of
+ *      each such slot right after the library call (adopt_zero: it becomes element <next token>,
+ *      event i<t>), so that stale bytes in such a slot - or an empty element that is never
+ *      finalised - are seen by the monitor.
+ *   I  init only: no callback when an element leaves the content; nothing is printed then, also
+ *      not for the source elements the harness drops.  Every element stores a magic word and its
  * token, so a raw byte copy (same token twice) can be told from a constructed copy
  * (fresh token, "c<new><<src>").  The script makes chosen traits->init calls of the
  * LIBRARY fail; constructor calls by the harness itself (source elements, elements
@@ -60,6 +69,7 @@ static carr H[NH];
 struct ehdr { uint32_t magic, tok; };
 
 static size_t esz[2];
+static int sh_init = 1, sh_fini = 1;   /* shape of both harness traits */
 static const type_traits *TR[2];
 static const char *script = "";
 static size_t script_pos;
@@ -98,13 +108,20 @@ static int el_init(void *ptr, const void *src, int k)
 	memset(ptr, 0x5a, esz[k]);
 	memcpy(ptr, &h, sizeof(h));
 	if (h.tok < MAXTOK) live[h.tok] = 1;
-	++live_count;
+	if (sh_fini) ++live_count;      /* without finaliser nothing ever reports the end of an element */
 	return 0;
+}
+static int all_zero(const uint8_t *p, size_t n)
+{
+	while (n--) if (*p++) return 0;
+	return 1;
 }
 static void el_fini(void *ptr, int k)
 {
 	ehdr h;
 	memcpy(&h, ptr, sizeof(h));
+	/* traits without init function: the zero pattern is the empty element */
+	if (!sh_init && all_zero((const uint8_t *) ptr, esz[k])) return;
 	if (h.magic == (k ? LIVE_B : LIVE_A)) {
 		ev("f%u", h.tok);
 		if (h.tok < MAXTOK && live[h.tok]) { live[h.tok] = 0; --live_count; }
@@ -191,7 +208,7 @@ static void el_fini(void *ptr, int k);
 static void own_destroy(void *ptr, int k)
 {
 	if (lib_mode && !k) TR[0]->fini(ptr);
-	else el_fini(ptr, k);
+	else if (sh_fini) el_fini(ptr, k);
 }
 static int initA(void *p, const void *s) { return el_init(p, s, 0); }
 static int initB(void *p, const void *s) { return el_init(p, s, 1); }
@@ -212,10 +229,34 @@ static const char *err_name(long e)
 }
 static void out_num(long r) { if (r < 0) vh_tok("E%s", err_name(r)); else vh_tok("n%ld", r); }
 
+/* traits without init function: take note of the empty (all-zero) elements the library added to the
+ * content of a buffer; [skip_off, skip_off + skip_len) of skipb is the region the caller fills next */
+static void adopt_zero(const rawbuf *skipb, size_t skip_off, size_t skip_len)
+{
+	rawbuf *seen[NH];
+	int nseen = 0, h;
+	if (sh_init || lib_mode) return;
+	for (h = 0; h < NH; h++) {
+		rawbuf *b = H[h].buf;
+		int c, k;
+		size_t off;
+		if (!b) continue;
+		for (c = 0; c < nseen && seen[c] != b; c++) { }
+		if (c < nseen) continue;
+		seen[nseen++] = b;
+		if ((k = kind_of_traits(b->traits)) < 0) continue;
+		uint8_t *d = (uint8_t *) (b + 1);
+		for (off = 0; off + esz[k] <= b->used; off += esz[k]) {
+			if (b == skipb && off >= skip_off && off < skip_off + skip_len) continue;
+			if (all_zero(d + off, esz[k])) own_construct(d + off, k);
+		}
+	}
+}
 static void dump(void)
 {
 	rawbuf *seen[NH];
 	int nseen = 0, h;
+	adopt_zero(0, 0, 0);
 	vh_add("|%s|", lib_mode ? "*" : evlog.empty() ? "-" : evlog.c_str());
 	evlog.clear();
 	for (h = 0; h < NH; h++) {
@@ -291,7 +332,19 @@ template <size_t N> static bool ua_op(int h, char op, long arg)
 	UA<N> ua;
 	bool r;
 	if (H[h].buf) ua.adopt(H[h].buf);
-	r = op == 'i' ? ua.insert(arg) != 0 : ua.resize(arg);
+	if (op == 'i') {
+		elem<N> *p = ua.insert(arg);
+		rawbuf *nb = ua.release();
+		H[h].buf = nb;
+		/* traits without init function: unique_array<T>::insert leaves the element to the caller
+		 * (placement new of a trivial type), as reference_array<T>::insert sets it afterwards */
+		if (p && nb && !sh_init) {
+			adopt_zero(nb, (size_t) ((uint8_t *) p - (uint8_t *) (nb + 1)), N);
+			own_construct(p, 0);
+		}
+		return p != 0;
+	}
+	r = ua.resize(arg);
 	H[h].buf = ua.release();
 	return r;
 }
@@ -329,9 +382,11 @@ static void run_case(int ntok, char **tok)
 	}
 	else {
 		esz[0] = vh_int(tok[1] + 1);
-		TR[0] = new type_traits(esz[0], finiA, initA);
+		sh_init = tok[1][0] != 'F';
+		sh_fini = tok[1][0] != 'I';
+		TR[0] = new type_traits(esz[0], sh_fini ? finiA : 0, sh_init ? initA : 0);
 	}
-	TR[1] = new type_traits(esz[1], finiB, initB);
+	TR[1] = new type_traits(esz[1], sh_fini ? finiB : 0, sh_init ? initB : 0);
 	while (t < ntok) {
 		const char *op = tok[t++];
 		if (!strcmp(op, "itest")) {
@@ -386,6 +441,7 @@ static void run_case(int ntok, char **tok)
 			if (!b) vh_tok("-");
 			else {
 				uint8_t *p = (uint8_t *) mpt_buffer_insert(cxx(b), pos, len);
+				if (p) adopt_zero(b, pos, len);
 				if (p) construct_range(b, ((uint8_t *) (b + 1)) + pos, len);
 				vh_tok(p ? "ok" : "no");
 			}
@@ -422,6 +478,7 @@ static void run_case(int ntok, char **tok)
 			if (!b) vh_tok("-");
 			else {
 				uint8_t *p = (uint8_t *) cxx(b)->append(len);
+				if (p) adopt_zero(b, (size_t) (p - (uint8_t *) (b + 1)), len);
 				if (p) construct_range(b, p, len);
 				vh_tok(p ? "ok" : "no");
 			}
